@@ -1,5 +1,6 @@
 import MaestroVerif.Model.Dag
 import MaestroVerif.Model.Exec
+import MaestroVerif.Model.Sched
 open MaestroVerif
 
 /-! Line-protocol driver: one operation per input line, one canonical answer line per operation. -/
@@ -9,6 +10,40 @@ def fmtList (l : List Nat) : String := "[" ++ ",".intercalate (l.map toString) +
 def fmtOptList : Option (List Nat) → String
   | none => "X"
   | some l => fmtList l
+
+
+/-! strings travel as `_`-separated hexadecimal code points (`-` = empty string) -/
+def hexVal (c : Char) : Nat :=
+  if '0' ≤ c && c ≤ '9' then c.toNat - '0'.toNat
+  else if 'a' ≤ c && c ≤ 'f' then c.toNat - 'a'.toNat + 10
+  else if 'A' ≤ c && c ≤ 'F' then c.toNat - 'A'.toNat + 10 else 0
+
+def unhex (s : String) : List Char :=
+  if s == "-" || s.isEmpty then [] else
+  (s.splitOn "_").map fun t => Char.ofNat (t.toList.foldl (fun n c => n * 16 + hexVal c) 0)
+
+def hexDigit (n : Nat) : Char :=
+  if n < 10 then Char.ofNat ('0'.toNat + n) else Char.ofNat ('a'.toNat + n - 10)
+
+def toHexNat (n : Nat) : String :=
+  if n < 16 then String.singleton (hexDigit n)
+  else
+    let rec go (fuel n : Nat) (acc : List Char) : List Char :=
+      match fuel with
+      | 0 => acc
+      | f + 1 => if n == 0 then acc else go f (n / 16) (hexDigit (n % 16) :: acc)
+    String.ofList (go 16 n [])
+
+def hex (s : List Char) : String :=
+  if s.isEmpty then "-" else "_".intercalate (s.map fun c => toHexNat c.toNat)
+
+def kvOf (toks : List String) (key : String) : String :=
+  match toks.find? (fun t => t.startsWith (key ++ "=")) with
+  | some t => (t.drop (key.length + 1)).toString
+  | none => ""
+
+def hexList (s : String) : List (List Char) :=
+  if s.isEmpty then [] else (s.splitOn ",").map unhex
 
 namespace DagDrv
 open Dag
@@ -145,6 +180,43 @@ def step (st : Option St) (toks : List String) : Option St × String :=
   | _ => (st, "bad-op")
 end ExecDrv
 
+
+namespace SchedDrv
+open Sched Gen
+
+def fmtStatus (st : Status) : String :=
+  ",".intercalate (st.map fun e => s!"{hex e.1}:{match e.2 with | some v => v.name | none => "None"}")
+
+def fmtRes : Except Unit (JobStatusCode × Status) → String
+  | .error _ => "RAISE:IndexError"
+  | .ok (c, st) => s!"code={c.name} st={fmtStatus st}"
+
+def step (toks : List String) : String :=
+  match toks with
+  | "sched.slurm" :: rest =>
+    fmtRes (slurmCheck (hexList (kvOf rest "ids"))
+      ⟨(kvOf rest "sqrc").toNat!, unhex (kvOf rest "sq")⟩ ⟨(kvOf rest "sarc").toNat!, unhex (kvOf rest "sa")⟩)
+  | "sched.lsf" :: rest =>
+    fmtRes (lsfCheck (hexList (kvOf rest "ids")) ⟨(kvOf rest "rc").toNat!, unhex (kvOf rest "out")⟩)
+  | "sched.flux" :: rest =>
+    let ans := (kvOf rest "ans")
+    let pairs := if ans.isEmpty then [] else (ans.splitOn ",").filterMap fun p =>
+      match p.splitOn ":" with
+      | [a, b] => some (unhex a, unhex b)
+      | _ => none
+    fmtRes (.ok (fluxCheck (hexList (kvOf rest "ids")) pairs (kvOf rest "errs" == "1")))
+  | ["sched.state", which, s] =>
+    let str := String.ofList (unhex s)
+    if which == "slurm" then (slurmState str).name
+    else if which == "lsf" then (lsfState str).name
+    else (fluxState str).name
+  | "sched.cancel" :: rest =>
+    let n := (kvOf rest "n").toNat!
+    let r := cancelJobs (List.replicate n ['j']) (kvOf rest "rc").toNat!
+    s!"{r.1.name} {r.2}"
+  | _ => "bad-op"
+end SchedDrv
+
 structure DrvState where
   dag : Dag.Dag := Dag.empty
   exec : Option ExecDrv.St := none
@@ -160,6 +232,7 @@ def stepLine (st : DrvState) (line : String) : DrvState × String :=
     else if t.startsWith "exec." then
       let r := ExecDrv.step st.exec toks
       ({ st with exec := r.1 }, r.2)
+    else if t.startsWith "sched." then (st, SchedDrv.step toks)
     else (st, "bad-op")
 
 partial def loop (h : IO.FS.Stream) (out : IO.FS.Stream) (st : DrvState) : IO Unit := do
